@@ -30,6 +30,18 @@ pub fn failure_in(l: &narsese::conversion::string::impl_lexical::NarseseFormat, 
         }
     }
     let want = lexgen::lex_canon(x);
+    // a bare term also through the term-only entry point
+    if let LexNarsese::Term(t) = x {
+        match observe(|| l.parse_term(&s).map(|v| lexgen::lex_term_canon(&v)).map_err(|e| e.to_string())) {
+            Obs::Ret(Ok(c)) => {
+                if format!("Term({})", c) != want && c != lexgen::lex_term_canon(t) {
+                    return Some(format!("parse_term({:?}) = {} but the original is {}", s, c, lexgen::lex_term_canon(t)));
+                }
+            }
+            Obs::Ret(Err(e)) => return Some(format!("parse_term({:?}) = Err({})", s, e)),
+            Obs::Panic(p) => return Some(format!("parse_term({:?}) panicked: {}", s, p)),
+        }
+    }
     match observe(|| l.parse(&s).map(|v| lexgen::lex_canon(&v)).map_err(|e| e.to_string())) {
         Obs::Ret(Ok(c)) => {
             if c != want {
@@ -332,6 +344,53 @@ pub fn run(ctx: &mut Ctx) {
             }
         }
     }
+    // (1b) extreme sizes: compounds and sets of 255..1000 atoms with every connecter / bracket pair,
+    // and chains 300 deep (on a thread with a large stack; not shrunk)
+    for f in ALL_FMT {
+        let v = Vocab::of(f);
+        let mut cases: Vec<(String, LexTerm)> = vec![];
+        for n in [255usize, 256, 257, 300, 1000] {
+            let atoms = |n: usize| -> Vec<LexTerm> { (0..n).map(|i| LexTerm::new_atom("", format!("w{}", i))).collect() };
+            for (ci, c) in v.connecters.iter().enumerate() {
+                if n < 1000 || ci % 4 == 0 {
+                    cases.push((format!("compound {:?} x{}", c, n), LexTerm::new_compound(c.clone(), atoms(n))));
+                }
+            }
+            for (l, r) in &v.set_brackets {
+                cases.push((format!("set {}{} x{}", l, r, n), LexTerm::new_set(l.clone(), atoms(n), r.clone())));
+            }
+        }
+        for depth in [129usize, 257, 300] {
+            let mut t = LexTerm::new_atom("", "core");
+            for i in 0..depth {
+                t = match i % 3 {
+                    0 => LexTerm::new_compound(v.connecters[i % v.connecters.len()].clone(), vec![t]),
+                    1 => LexTerm::new_set(v.set_brackets[0].0.clone(), vec![t], v.set_brackets[0].1.clone()),
+                    _ => LexTerm::new_statement(v.copulas[i % v.copulas.len()].clone(), t, LexTerm::new_atom("", "q")),
+                };
+            }
+            cases.push((format!("chain {} deep", depth), t));
+        }
+        for (label, t) in cases {
+            idx += 1;
+            if !ctx.mine(idx) {
+                continue;
+            }
+            ctx.report.eval();
+            ctx.report.bump("family.extreme-sizes");
+            ctx.report.nontrivial(&format!("{}|extreme|{}", f.name(), label));
+            let x = LexNarsese::Term(t);
+            match on_big_stack(move || failure(f, &x)) {
+                Some(None) => {}
+                Some(Some(w)) => ctx.report.violate(
+                    format!("C02|{}|extreme|{}", f.name(), label),
+                    format!("[{}] lexical round trip fails for the extreme case {}: {}", f.name(), label, w.chars().take(300).collect::<String>()),
+                    J::obj().set("format", f.name()).set("extreme", label.as_str()),
+                ),
+                None => ctx.report.violate(format!("C02|{}|extreme-crash|{}", f.name(), label), format!("[{}] the thread handling {} died", f.name(), label), J::obj().set("format", f.name()).set("extreme", label.as_str())),
+            }
+        }
+    }
     // (2) random vocabulary-consistent values
     let n = ctx.share(240_000, 5_000_000);
     let gens: Vec<LexGen> = ALL_FMT.iter().map(|f| LexGen::new(*f, false)).collect();
@@ -353,6 +412,10 @@ pub fn run(ctx: &mut Ctx) {
 
 pub fn replay(ctx: &mut Ctx, d: &J) -> Option<()> {
     let f = fmt_of(d)?;
+    if d.get("extreme").is_some() {
+        // (the extreme-size family is re-run as a whole by the check itself)
+        return Some(());
+    }
     let x = lexgen::lex_from_json(d.get("lexical")?)?;
     if let Some(p) = jstr(d, "recreated_after") {
         if let Some(w) = recreated_failure(Fmt::from_name(&p), f, &x) {
